@@ -13,7 +13,14 @@ def run(r):
         r.violation({"broken": broken or "proof obligation", "theorem_or_tie": "Props/C04.v", "log": "" if broken else r.build_failure_excerpt()},
                     found_input=False, name="C04-obligation.json")
     try:
-        c02.run_correspondence(r)
+        cases = c02.run_correspondence(r)
+        # the public xdis.findlabels (cross_dis.findlabels: findlabels_pre_310 below 3.10, findlabels_310 from 3.10) on the same code strings,
+        # for the versions whose byte layout it reads correctly (it unpacks 3.6-3.9 word code as byte code: outside)
+        from props import instrgen as IG
+        tabs = IG.load_tables()
+        pub = [c for c in cases if c["table"] in tabs and not ((3, 6) <= tuple(tabs[c["table"]]["version_tuple"][:2]) < (3, 10))][:: 2 if r.tier == "quick" else 1]
+        C.correspond(r, "xdis_findlabels", c02.HEADER, "xdis_findlabels", pub, lambda c: f"obs_xdis_findlabels {c['table']} {C.blist(c['code'])}", modules=c02.MODS,
+                     describe=c02.describe("xdis.findlabels (the cross_dis export)"), shards=8, chunk=300)
     except SystemExit:
         raise
     except Exception as e:
